@@ -43,9 +43,17 @@ class Digest:
     def __repr__(self):
         return "Digest(%d)" % self.idx
 
+class ValueDigest(Digest):
+    """a digest object with value semantics: it defines __eq__ and is therefore unhashable"""
+    def __eq__(self, other):
+        return type(other) is type(self) and other.idx == self.idx
+
 DIGESTS = [Digest(i) for i in range(10)]
+VALUE_DIGESTS = [ValueDigest(i) for i in range(10)]
 for _i, _d in enumerate(DIGESTS):
     globals()["p%d" % _i] = _d
+for _i, _d in enumerate(VALUE_DIGESTS):
+    globals()["v%d" % _i] = _d
 '''
 _ready = False
 
@@ -73,7 +81,10 @@ def case(draw):
     # so the constraint graph is acyclic even when the absent names are counted as nodes
     order = list(draw(st.permutations(range(n + len(ABSENT)))))
     plugins = [{"name": names[i], "required": draw(st.booleans()) and draw(st.booleans()), "before": [], "after": [],
-                "result": draw(st.integers(0, len(RESULTS) - 1))} for i in range(n)]
+                "result": draw(st.integers(0, len(RESULTS) - 1)),
+                # how the constraint names are handed to the decorator (any Iterable[str]) and what kind of callable the digest is
+                "decl": draw(st.sampled_from(["list", "list", "tuple", "set", "frozenset", "generator", "iterator"])),
+                "digest": draw(st.sampled_from(["plain", "plain", "plain", "value-semantics"]))} for i in range(n)]
     pos = {i: order[i] for i in range(n)}
     for i in range(n):
         for j in range(n):
@@ -111,10 +122,12 @@ def run_case(spec) -> Result:
     plugins = spec["plugins"]
     names = [p["name"] for p in plugins]
     for i, p in enumerate(plugins):
-        d = mod.DIGESTS[i]
+        value = p.get("digest") == "value-semantics"
+        d = (mod.VALUE_DIGESTS if value else mod.DIGESTS)[i]
         d.result = RESULTS[p["result"]]
-        constraints(before=p["before"], after=p["after"], required=p["required"])(d)
-    write_entry_points("verif_c14", {GROUP: {p["name"]: f"verifplug_c14:p{i}" for i, p in enumerate(plugins)}})
+        wrap = {"list": list, "tuple": tuple, "set": set, "frozenset": frozenset, "generator": lambda names_: (x for x in names_), "iterator": iter}[p.get("decl", "list")]
+        constraints(before=wrap(p["before"]), after=wrap(p["after"]), required=p["required"])(d)
+    write_entry_points("verif_c14", {GROUP: {p["name"]: f"verifplug_c14:{'v' if p.get('digest') == 'value-semantics' else 'p'}{i}" for i, p in enumerate(plugins)}})
     mod.LOG.clear()
     n_edges = sum(len(p["before"]) + len(p["after"]) for p in plugins)
     absent = any(x in ABSENT for p in plugins for x in p["before"] + p["after"])
